@@ -8,13 +8,13 @@ import WsVerif.Props.C16DiscardMsg
 namespace Ws.C16
 open Ws Ws.Spec Ws.RdProof
 
-theorem discard_open_tail_gen (skip : Bool) (st maxF : Nat) (cx : Ctx) (rest : Bytes) (E : Option RErr)
+theorem discard_open_tail_gen (skip : Bool) (st maxF : Nat) (cx : Ctx) (rest : Bytes) (E : Option RErr) (fn : Fin)
     (hbase : ∀ (r : Rd) (s : Src) (wire : Bytes) (n : Nat), Common skip st maxF r s → r.state = st → r.rawN = wire.length →
-      s.bytes = wire ++ rest → s.fin = .eof → (r.discard s cx none (n + 2)).1 = E)
+      s.bytes = wire ++ rest → s.fin = fn → (r.discard s cx none (n + 2)).1 = E)
     (fs : List WFrame) (ht : Tail true skip st maxF fs) (hopen : closed fs = false) :
     ∀ (r : Rd) (s : Src) (wire : Bytes) (fuel : Nat),
       Common skip st maxF r s → r.state = st → r.rawN = wire.length → s.bytes = wire ++ (encodeFs fs ++ rest) →
-      s.fin = .eof → fs.length + 1 < fuel →
+      s.fin = fn → fs.length + 1 < fuel →
       (r.discard s cx none fuel).1 = E := by
   induction ht with
   | opn _ =>
@@ -29,13 +29,13 @@ theorem discard_open_tail_gen (skip : Bool) (st maxF : Nat) (cx : Ctx) (rest : B
     match fuel, hfuel with
     | n + 1, hfuel =>
     obtain ⟨s1, hd, hb1, ht1, _, _⟩ := drainRaw_ok s.fuel r s wire (encodeFs (f :: fs) ++ rest) hb hn hc.tame (by unfold Src.fuel mu; omega)
-    have hf1 : s1.fin = .eof := by have := drainRaw_fin s.fuel r s; rw [hd] at this; simpa [hfin] using this
+    have hf1 : s1.fin = fn := by have := drainRaw_fin s.fuel r s; rw [hd] at this; simpa [hfin] using this
     have hfr : ({ r with rawN := 0 } : Rd).fragmented = true := by simp [Rd.fragmented, hst, hc.stF]
     have hbytes : s1.bytes = rfcEncode f.h ++ (f.wire ++ (encodeFs fs ++ rest)) := by rw [hb1]; simp [encodeFs, WFrame.enc]
     have hwf1 : Bytes.WF s1.bytes := by rw [hb1]; exact wf_append_right (hb ▸ hc.wf)
     have hwt : Bytes.WF (f.wire ++ (encodeFs fs ++ rest)) := by rw [hbytes] at hwf1; exact wf_append_right hwf1
     obtain ⟨s2, hrh, hb2, ht2, _⟩ := readHeader_ok f.h hok.hwf _ hwt s1 hbytes ht1
-    have hf2 : s2.fin = .eof := by have := readHeaderUtil_fin s1; rw [hrh] at this; simpa [hf1] using this
+    have hf2 : s2.fin = fn := by have := readHeaderUtil_fin s1; rw [hrh] at this; simpa [hf1] using this
     have hacc' : Accepts ({ r with rawN := 0 } : Rd) f.h := by
       unfold Accepts; simp only [hc.skip, hst, hc.maxF]; exact hacc
     have hnext := nextFrame_data ({ r with rawN := 0 } : Rd) s1 s2 cx none f.h hrh hacc' (by simp [hc.ext]) hdata
@@ -51,7 +51,7 @@ theorem discard_open_tail_gen (skip : Bool) (st maxF : Nat) (cx : Ctx) (rest : B
     match fuel, hfuel with
     | n + 1, hfuel =>
     obtain ⟨s1, hd, hb1, ht1, _, _⟩ := drainRaw_ok s.fuel r s wire (encodeFs (f :: fs) ++ rest) hb hn hc.tame (by unfold Src.fuel mu; omega)
-    have hf1 : s1.fin = .eof := by have := drainRaw_fin s.fuel r s; rw [hd] at this; simpa [hfin] using this
+    have hf1 : s1.fin = fn := by have := drainRaw_fin s.fuel r s; rw [hd] at this; simpa [hfin] using this
     have hfr : ({ r with rawN := 0 } : Rd).fragmented = true := by simp [Rd.fragmented, hst, hc.stF]
     have hbytes : s1.bytes = rfcEncode f.h ++ (f.wire ++ (encodeFs fs ++ rest)) := by rw [hb1]; simp [encodeFs, WFrame.enc]
     have hwf1 : Bytes.WF s1.bytes := by rw [hb1]; exact wf_append_right (hb ▸ hc.wf)
@@ -61,7 +61,7 @@ theorem discard_open_tail_gen (skip : Bool) (st maxF : Nat) (cx : Ctx) (rest : B
       unfold Accepts; simp only [hc.skip, hst, hc.maxF]; exact hacc
     obtain ⟨s3, hnext, hb3, ht3, _⟩ := nextFrame_ctl ({ r with rawN := 0 } : Rd) s1 s2 cx f (encodeFs fs ++ rest) hrh hacc'
       (by simp [hc.ext]) hctl hfr hb2 hok.len ht2
-    have hf3 : s3.fin = .eof := by
+    have hf3 : s3.fin = fn := by
       have := nextFrame_src_fin ({ r with rawN := 0 } : Rd) s1 cx; rw [hnext] at this; simpa [hf1] using this
     have hc3 : Common skip st maxF (skipCtl ({ r with rawN := 0 } : Rd) f.h) s3 :=
       common_of skip st maxF hc _ s3 (by simp [skipCtl]) (by simp [skipCtl]) (by simp [skipCtl]) (by simp [skipCtl]) ht3
@@ -81,7 +81,7 @@ theorem discard_cut_in_later_frame (skip : Bool) (st maxF : Nat) (cx : Ctx) (h :
     (hc : Common skip st maxF r s) (hst : r.state = st) (hn : r.rawN = wire.length)
     (hb : s.bytes = wire ++ (encodeFs fs ++ (rfcEncode h ++ part))) (hfin : s.fin = .eof) :
     (r.discard s cx none (fs.length + 3)).1 = some .ueof := by
-  refine discard_open_tail_gen skip st maxF cx (rfcEncode h ++ part) (some .ueof) ?_ fs ht hopen r s wire _ hc hst hn hb hfin (by omega)
+  refine discard_open_tail_gen skip st maxF cx (rfcEncode h ++ part) (some .ueof) .eof ?_ fs ht hopen r s wire _ hc hst hn hb hfin (by omega)
   intro r s wire n hc hst hn hb hfin
   obtain ⟨s1, hd, hb1, ht1, _, _⟩ := drainRaw_ok s.fuel r s wire (rfcEncode h ++ part) hb hn hc.tame (by unfold Src.fuel mu; omega)
   have hf1 : s1.fin = .eof := by have := drainRaw_fin s.fuel r s; rw [hd] at this; simpa [hfin] using this
@@ -126,7 +126,7 @@ theorem discard_cut_in_later_control (skip : Bool) (st maxF : Nat) (cx : Ctx) (h
     (hc : Common skip st maxF r s) (hst : r.state = st) (hn : r.rawN = wire.length)
     (hb : s.bytes = wire ++ (encodeFs fs ++ (rfcEncode h ++ part))) (hfin : s.fin = .eof) :
     (r.discard s cx none (fs.length + 3)).1 = some .ueof := by
-  refine discard_open_tail_gen skip st maxF cx (rfcEncode h ++ part) (some .ueof) ?_ fs ht hopen r s wire _ hc hst hn hb hfin (by omega)
+  refine discard_open_tail_gen skip st maxF cx (rfcEncode h ++ part) (some .ueof) .eof ?_ fs ht hopen r s wire _ hc hst hn hb hfin (by omega)
   intro r s wire n hc hst hn hb hfin
   obtain ⟨s1, hd, hb1, ht1, _, _⟩ := drainRaw_ok s.fuel r s wire (rfcEncode h ++ part) hb hn hc.tame (by unfold Src.fuel mu; omega)
   have hf1 : s1.fin = .eof := by have := drainRaw_fin s.fuel r s; rw [hd] at this; simpa [hfin] using this
